@@ -110,3 +110,11 @@ def gen_tokenizer(items):
                D('ASCII_FOLDING_CLEARS_OUTPUT', b, 'ascii_folding_filter.rs to_ascii starts with `output.clear()`') + '\n' + \
                D('STEMMER_CLEARS_BUFFER', c, 'stemmer.rs advance: `self.buffer.clear()` before `push_str`')
     items.append(buffer_clears)
+
+    def ngram_new_guards():
+        body = fn_body(ng, 'new')
+        a = 1 if re.search(r'if\s+min_gram\s*==\s*0\s*\{\s*return\s+Err', body) else 0
+        b = 1 if re.search(r'if\s+min_gram\s*>\s*max_gram\s*\{\s*return\s+Err', body) else 0
+        return D('NGRAM_NEW_REJECTS_ZERO_MIN', a, 'NgramTokenizer::new: `if min_gram == 0 { return Err(..) }`') + '\n' + \
+               D('NGRAM_NEW_REJECTS_MIN_GT_MAX', b, 'NgramTokenizer::new: `if min_gram > max_gram { return Err(..) }`')
+    items.append(ngram_new_guards)
